@@ -14,6 +14,7 @@ HERE = os.path.dirname(os.path.abspath(__file__))
 
 def main():
     backend, mode, outp = sys.argv[1], sys.argv[2], sys.argv[3]
+    signal.signal(signal.SIGINT, signal.default_int_handler)   # (an inherited SIG_IGN would make every Ctrl-C a no-op)
     import logging
     import labtech
     import rtasks
@@ -22,6 +23,18 @@ def main():
     rtasks.LOG = os.path.join(wd, 'log')
     os.environ['VERIF_RT_LOG'] = rtasks.LOG
     rec = dict(backend=backend, mode=mode)
+    # CPython reports, and then DROPS, an exception raised inside a finalizer / weakref callback / __del__ (here: the
+    # KeyboardInterrupt of a SIGINT that happens to be handled while such a callback runs). That instant is not a line
+    # boundary of labtech; the run is recorded as such and repeated by the check instead of being judged.
+    swallowed = []
+
+    def unraisable(u):
+        if isinstance(u.exc_value, KeyboardInterrupt):
+            swallowed.append(repr(u.object)[:120])
+        else:
+            sys.__unraisablehook__(u)
+    sys.unraisablehook = unraisable
+    rec['swallowed'] = swallowed
     try:
         lab = labtech.Lab(storage=os.path.join(wd, 's'), runner_backend=backend, max_workers=2)
         tasks = [rtasks.Sleeper(k=i, seconds=2.5, block_sigterm=(mode == 'double_block'), external=(mode == 'single_ext')) for i in range(4)]   # 2 run at once, 2 stay queued
